@@ -435,6 +435,11 @@ func (vc *VC) applyContract(fr *Frame, instr ssa.Instruction, spec *FuncSpec, na
 		for _, g := range cs.GhostB {
 			vc.ghostAssign(callerEnv(st, nil), st, g)
 		}
+		for _, a := range cs.AssertsB {
+			f := vc.trBool(callerEnv(st, nil), a.E)
+			o := vc.oblige(st, fmt.Sprintf("%s#at.%s#%d.before.%d", vc.fnNameOf(fr), name, ord, a.Idx), "assert", f, a.Src, instr.Pos())
+			o.Tag = a.Tag
+		}
 	}
 	// preconditions
 	for _, c := range spec.Requires {
@@ -1113,7 +1118,10 @@ func (vc *VC) appendOp(fr *Frame, c *ssa.CallCommon, st *State) Val {
 	fits := vc.define("appfits", "Bool", fmt.Sprintf("(and (<= %s %s) (not (= %s 0)))", newLen, s.Sl.Cap, s.Sl.Arr))
 	fresh := vc.alloc(st, "append")
 	resArr := vc.define("apparr", "Int", fmt.Sprintf("(ite %s %s %s)", fits, s.Sl.Arr, fresh))
-	resOff := vc.define("appoff", "Int", fmt.Sprintf("(ite %s %s 0)", fits, s.Sl.Off))
+	resOff := "0"
+	if s.Sl.Off != "0" {
+		resOff = vc.define("appoff", "Int", fmt.Sprintf("(ite %s %s 0)", fits, s.Sl.Off))
+	}
 	resCap := vc.freshConst("appcap", "Int")
 	vc.emit(fmt.Sprintf("(assert (and (>= %s %s) (=> %s (= %s %s))))", resCap, newLen, fits, resCap, s.Sl.Cap))
 	// new row content: positions [off, off+len) keep old content, [off+len, off+newLen) = t
@@ -1282,6 +1290,12 @@ func (vc *VC) loopHead(fr *Frame, li *loopInfo, st *State, phis []*ssa.Phi, entr
 	}
 	// 4. assume invariants
 	locals = vc.loopLocals(fr, li, phis, func(ph *ssa.Phi) Val { return fr.env[ph] }, head)
+	if iv, ok := locals[fmt.Sprintf("$idx%d", li.ord)]; ok {
+		if fr.idxVals == nil {
+			fr.idxVals = map[string]Val{}
+		}
+		fr.idxVals[fmt.Sprintf("$idx%d", li.ord)] = iv
+	}
 	if ls != nil {
 		for _, inv := range ls.Invariants {
 			env := vc.specEnv(fr, head, fr.oldStOrSelf(head), locals)
@@ -1308,7 +1322,9 @@ func (vc *VC) loopLocals(fr *Frame, li *loopInfo, phis []*ssa.Phi, val func(*ssa
 	for _, ph := range phis {
 		v := val(ph)
 		if ph.Comment == "rangeindex" {
-			out["$idx"] = Val{T: fmt.Sprintf("(+ %s 1)", v.T), Typ: types.Typ[types.Int]}
+			iv := Val{T: fmt.Sprintf("(+ %s 1)", v.T), Typ: types.Typ[types.Int]}
+			out["$idx"] = iv
+			out[fmt.Sprintf("$idx%d", li.ord)] = iv
 			continue
 		}
 		if ph.Comment != "" {
